@@ -12,7 +12,7 @@ UNITS = {
     'wire': {'template': 'units/wire/unit.rs', 'serves': ['C19', 'C10'], 'min_verified': 31},
     'pool': {'template': 'units/pool/unit.rs', 'serves': ['C04', 'C08', 'C18', 'C03', 'C10', 'C06'], 'min_verified': 106},
     'blockdata': {'template': 'units/blockdata/unit.rs', 'serves': ['C13', 'C10', 'C12', 'C14'], 'min_verified': 51},
-    'routing': {'template': 'units/routing/unit.rs', 'serves': ['C16'], 'min_verified': 58},
+    'routing': {'template': 'units/routing/unit.rs', 'serves': ['C16'], 'min_verified': 65},
     'votor': {'template': 'units/votor/unit.rs', 'serves': ['C05', 'C18'], 'min_verified': 60},
     'parent_ready': {'template': 'units/parent_ready/unit.rs', 'serves': ['C07'], 'min_verified': 64},
     'repair': {'template': 'units/repair/unit.rs', 'serves': ['C14', 'C15', 'C10'], 'min_verified': 28},
